@@ -208,6 +208,10 @@ func (c *Sender) ResultError(requestHeader *model.HeaderType, senderAddress *mod
 func (c *Sender) result(requestHeader *model.HeaderType, senderAddress *model.FeatureAddressType, err *model.ErrorType) error {
 	cmdClassifier := model.CmdClassifierTypeResult
 
+	if requestHeader == nil || requestHeader.AddressDestination == nil || senderAddress == nil {
+		return errors.New("request header destination or sender address is missing")
+	}
+
 	addressSource := *requestHeader.AddressDestination
 	addressSource.Device = senderAddress.Device
 
@@ -247,6 +251,10 @@ func (c *Sender) result(requestHeader *model.HeaderType, senderAddress *model.Fe
 // Reply sends reply to original sender
 func (c *Sender) Reply(requestHeader *model.HeaderType, senderAddress *model.FeatureAddressType, cmd model.CmdType) error {
 	cmdClassifier := model.CmdClassifierTypeReply
+
+	if requestHeader == nil || requestHeader.AddressDestination == nil || senderAddress == nil {
+		return errors.New("request header destination or sender address is missing")
+	}
 
 	addressSource := *requestHeader.AddressDestination
 	addressSource.Device = senderAddress.Device
